@@ -338,6 +338,12 @@ def gen_smb2(rng, fault=None):
     return nbt(p)
 
 
+# destination ports a responder might single out
+PORTS = [22, 2222, 80, 8080, 443, 111, 445, 139, 3478, 53, 5353, 21, 23, 25, 2049, 3389]
+
+# receive windows a request segment may advertise (zero-window probes, tiny embedded stacks, the usual scanner values)
+WINDOWS = [8192, 8192, 8192, 65535, 1024, 512, 256, 64, 1, 0]
+
 APP_GENS = {
     'http': (gen_http, [None, None, None, None, 'verb', 'nosp', 'version', 'nocolon', 'unterminated', 'lower', 'twosp', 'folded']),
     'ssh': (gen_ssh, [None, None, None, 'unterminated', 'version', 'magic']),
@@ -456,10 +462,10 @@ class World:
         s, d = self.addrs(v6, second)
         return self.fip(v6, 17, udp(sport, dport, pl, src=s, dst=d), dst=d)
 
-    def data_frame(self, v6, sport, dport, seq, pl, flags=0x18, ackdelta=1, second=False):
+    def data_frame(self, v6, sport, dport, seq, pl, flags=0x18, ackdelta=1, second=False, **kw):
         s, d = self.addrs(v6, second)
         ck = self.cookie(s, d, sport, dport)
-        return self.tcp_frame(v6, sport, dport, seq, (ck + ackdelta) & 0xffffffff, flags, pl, second=second)
+        return self.tcp_frame(v6, sport, dport, seq, (ck + ackdelta) & 0xffffffff, flags, pl, second=second, **kw)
 
 
 def near_miss(rng, mac):
